@@ -227,13 +227,44 @@ def parse_recs(fields):
     return fd, fpo, cfi
 
 
+def select_ascending(recs, addr):
+    """c07_table_ascending, written independently of ref_table: in a list of records with strictly increasing addresses
+    (each with a memory range) the record answering `addr` is the LAST one starting at or before it, provided it reaches
+    the address as written; its effective end is the next record's start.  -> (applicable, record or None)"""
+    if not recs or any(mk_range(r["addr"], r["size"]) is None for r in recs):
+        return False, None
+    if any(recs[k]["addr"] >= recs[k + 1]["addr"] for k in range(len(recs) - 1)):
+        return False, None
+    cand = [r for r in recs if r["addr"] <= addr]
+    if not cand:
+        return True, None
+    r = cand[-1]
+    return True, (r if addr < r["addr"] + r["size"] else None)
+
+
+class RefDisagree(Exception):
+    pass
+
+
+def lookup_rec(recs, addr):
+    rec = table_get(ref_table(recs), addr)
+    ok, want = select_ascending(recs, addr)
+    if ok:
+        # same record up to the (clipped) size
+        a = None if rec is None else dict(rec, size=0)
+        b = None if want is None else dict(want, size=0)
+        if a != b:
+            raise RefDisagree("address-sorted STACK WIN records: the table reference picks %r, c07_table_ascending's rule %r" % (rec, want))
+    return rec
+
+
 def ref_win(fd, fpo, addr, callee, mem, gcps, hasgc):
     """-> ('win', regs) | ('fail', None) | ('none', None)"""
-    rec = table_get(ref_table(fd), addr)
+    rec = lookup_rec(fd, addr)
     if rec is not None:
         r = ref_framedata(rec, callee, mem, gcps)
         return ("win", r) if r is not None else ("fail", None)
-    rec = table_get(ref_table(fpo), addr)
+    rec = lookup_rec(fpo, addr)
     if rec is not None:
         r = ref_fpo(rec, callee, mem, gcps, hasgc)
         return ("win", r) if r is not None else ("fail", None)
@@ -504,6 +535,34 @@ class C07(PropBase):
             regs, mb, mh, gcps = envs[0]
             addA(rng.choice([95, 100, 101, 104, 109, 115]), gcps, rng.chance(1, 2), regs, mb, mh, recs)
             dist["record_sets"] += 1
+        # address-sorted record lists (c07_table_ascending; parser.rs: "each line has an accurate starting point, but the length
+        # just covers the entire function"): 2-5 records of one kind with strictly increasing addresses, lengths reaching the
+        # function end / stopping short (a gap) / overshooting, optionally a record of the OTHER kind over the whole function;
+        # every record evaluates to a different result, so the oracle sees which one was selected
+        nst = 60 if tier == "quick" else 600
+        for k in range(nst):
+            n = rng.range(2, 6)
+            kind = "4" if k % 2 == 0 else "0"
+            starts = [100]
+            for _i in range(n - 1):
+                starts.append(starts[-1] + rng.choice([1, 2, 3, 4, 10]))
+            fend = starts[-1] + rng.choice([1, 4, 8])
+            recs = []
+            for j, a in enumerate(starts):
+                size = rng.choice([fend - a, fend - a, fend - a, 1, 2, fend - a + 7, (starts[j + 1] - a) if j + 1 < n else 3])
+                if kind == "4":
+                    recs.append(W("4", a, size, 8, 4, 0, "1", "$eip %d = $esp %d =" % (5000 + j, 6000 + j)))
+                else:
+                    recs.append(W("0", a, size, 8, 4 * (j % 4), 4 * (j // 4), "0", "0"))
+            if rng.chance(1, 3):
+                other = (W("0", 100, fend - 100 + 4, 8, 28, 0, "0", "0") if kind == "4"
+                         else W("4", 100 + rng.choice([0, 2]), rng.choice([3, fend - 100]), 8, 0, 0, "1", "$eip 7777 = $esp 8888 ="))
+                recs.insert(rng.below(len(recs) + 1), other)
+            regs, mb, mh, gcps = ("esp=%d,ebp=%d,ebx=9,eip=77" % (ESP, ESP + 16), ESP - 16, imgw, 4)
+            probes = sorted(set([99, fend - 1, fend, fend + 6, fend + 7] + starts + [a + 1 for a in starts] + [a - 1 for a in starts[1:]]))
+            for x in probes:
+                addA(x, gcps, True, regs, mb, mh, recs)
+                dist["ascending_record_lists"] = dist.get("ascending_record_lists", 0) + 1
         # front-end (b): x86 walk_stack
         stackB = (b"\x00\x10\x00\x40" + b"\x00\x20\x00\x40" + bytes(range(1, 57))).hex()
         bst = ["$eip $esp ^ =", "$esp $esp 4 + =", "$ebp .undef =", "$ebx $esp 8 + ^ =", "$esi 7 =", "$edi $T0 =", "$T0 5 =",
@@ -692,6 +751,8 @@ class C07(PropBase):
             return self.oracle_real(f, ans)
         except Undoc:
             return None
+        except RefDisagree as e:
+            return "oracle self-check failed (two independent references of the record table disagree): %s" % e
 
     def oracle_mock(self, f, ans):
         lookup, gcps, hasgc = int(f[1]), int(f[2]), f[3] == "1"
